@@ -22,7 +22,7 @@ RULE = ('40% handle histories: 2..4 disk files (all NETCDF3_CLASSIC or all NETCD
         'repeated) / drop+gc.collect / deferred drop / gc.collect, streams random, close-reopen-finalise, at-most-one-close-per-object, '
         'gc-heavy; after every step each referenced object is read (own data / other file\'s data / raises). 60% operation cases: '
         'input file(s) with dims t,z,y,x (+TFLAG or time variable, float or integer, uniform or irregular coordinate, optional bounds '
-        'variable, optional masked variable M; data variables A, B plain / masked with 2-3 masked cells / masked with mask=nomask), in memory or disk-backed, and one of 42 calls (mask() with each keyword incl. where= / mask=+dims= / where as variable / by shape / coords=True; copy, subsetVariables, sliceDimensions x3, '
+        'variable, optional masked variable M, second coordinate y, P already in the reordered layout (t,z,x,y), Z without y/x; data variables A, B, P, Z plain / masked with 2-3 masked cells / masked with mask=nomask), in memory or disk-backed, and one of 42 calls (mask() with each keyword incl. where= / mask=+dims= / where as variable / by shape / coords=True; copy, subsetVariables, sliceDimensions x3, '
         'applyAlongDimensions, renameVariable, renameDimension, insertDimension, reorderDimensions, removeSingleton, stack, mask, +, '
         'eval x3, getvarpnc, slice_dim, getTimes x2, date2num, time2idx, val2idx nearest/bounds, repr, dump, save). Non-trivial = a history '
         'with a close of an already closed object, or an operation whose inputs are memory-backed.')
@@ -79,7 +79,7 @@ def _gen_hist(rng, tier):
     return dict(kind='h-' + style, nfiles=nfiles, fmt=rng.choice(['NETCDF3_CLASSIC', 'NETCDF4']), steps=steps)
 
 
-OPS_CLEAN = ['copy', 'subset', 'slice-slice', 'slice-int', 'slice-list', 'apply-mean', 'renvar', 'rendim', 'insdim', 'reorder',
+OPS_CLEAN = ['copy', 'subset', 'slice-slice', 'slice-int', 'slice-list', 'apply-mean', 'renvar', 'rendim', 'insdim', 'reorder', 'reorder-rot', 'reorder-same',
              'rmsingle', 'stack', 'mask', 'add', 'eval-expr', 'gettimes', 'gettimes-bounds', 'date2num', 'time2idx', 'val2idx-nearest',
              'repr', 'dump', 'save']
 # mask() with each keyword; where= / mask= as a boolean array of the shape of A, with dims= naming A's dimensions, carrying a
@@ -255,12 +255,28 @@ def _mkfile(spec, which, backing, tmp):
             else:
                 a[:] = vals
         a.units = 'ppb'; a.long_name = name
+    # variables most calls have no work to do on: a second 1-D coordinate, a variable already laid out in the order the
+    # reorder ops ask for, and a variable without the y / x dimensions (masked like A and B when vmask says so)
+    yv = f.createVariable('y', 'd', ('y',)); yv[:] = np.arange(ny) + 0.5; yv.units = 'm'
+    for name, dims in (('P', ('t', 'z', 'x', 'y')), ('Z', ('t', 'z'))):
+        shp = tuple(dict(t=nt, z=nz, y=ny, x=nx)[d] for d in dims)
+        vals = (rs.permutation(int(np.prod(shp))).reshape(shp) + 2000).astype('f')
+        if vmask == 'plain':
+            a = f.createVariable(name, 'f', dims); a[:] = vals
+        else:
+            a = f.createVariable(name, 'f', dims, fill_value=-999.)
+            if vmask == 'cells':
+                mk = np.zeros(shp, dtype=bool); mk.flat[rs.choice(vals.size, size=min(2, vals.size), replace=False)] = True
+                a[:] = np.ma.masked_where(mk, vals)
+            else:
+                a[:] = vals
+        a.units = 'ppb'
     if spec['masked']:
         m = f.createVariable('M', 'f', ('t', 'y', 'x'), fill_value=-999.)
         m[:] = np.ma.masked_greater(rs.permutation(nt * ny * nx).reshape(nt, ny, nx).astype('f'), nt * ny * nx - 3)
         m.units = 'k'
     f.title = 'input %d' % which
-    f.setCoords(['x'] + (['time'] if spec['timemode'] == 'time' else ['TFLAG']) + (['x_bounds'] if spec['xbounds'] else []))
+    f.setCoords(['x', 'y'] + (['time'] if spec['timemode'] == 'time' else ['TFLAG']) + (['x_bounds'] if spec['xbounds'] else []))
     if backing == 'disk':
         from PseudoNetCDF.core._files import netcdf
         p = os.path.join(tmp, 'in%d.nc' % which)
@@ -343,7 +359,15 @@ def _op_child(case, tmp):
             elif op == 'renvar': res = f.renameVariable('A', 'C')
             elif op == 'rendim': res = f.renameDimension('y', 'yy')
             elif op == 'insdim': res = f.insertDimension(w=2)
-            elif op == 'reorder': res = f.reorderDimensions(('y', 'x'), ('x', 'y'))
+            elif op in ('reorder', 'reorder-rot', 'reorder-same'):
+                alld = tuple(f.dimensions.keys())
+                if op == 'reorder':          # swap y and x: A, B, M move, P / x / y / Z / time are already in order
+                    newd = tuple({'y': 'x', 'x': 'y'}.get(d, d) for d in alld)
+                elif op == 'reorder-rot':    # x first
+                    newd = ('x',) + tuple(d for d in alld if d != 'x')
+                else:                        # the order the file already has: nothing moves at all
+                    newd = alld
+                res = f.reorderDimensions(alld, newd)
             elif op == 'rmsingle': res = f.removeSingleton()
             elif op == 'stack': res = f.stack(g, 't')
             elif op in ('mask', 'mask-greater'): res = f.mask(greater=5)
@@ -426,6 +450,32 @@ def _op_child(case, tmp):
             except Exception:
                 pass
         later = _diff(ins, after, [_snap(fi) for fi in ins], base)
+        # ... and vice versa: write into every (memory-backed) input variable, data and mask; the returned file must not change
+        try:
+            r0 = _snap(res)
+            for bid, iv in inarr:
+                try:
+                    if iv.dtype.kind in 'fiu':
+                        iv[...] = np.ma.getdata(iv[...]) + 11
+                        mi = np.ma.getmask(iv)
+                        if mi is not np.ma.nomask:
+                            mi[...] = ~mi
+                except Exception:
+                    pass
+            r1 = _snap(res)
+            if r0 != r1:
+                hit = []
+                for (k, h0, m0, _), (_, h1, m1, _) in zip(r0['vars'], r1['vars']):
+                    if h0 != h1 or m0 != m1:
+                        ov = res.variables[k]
+                        sh = [bid for bid, iv in inarr if isinstance(ov, np.ndarray) and (
+                            np.shares_memory(np.ma.getdata(ov), np.ma.getdata(iv)) or
+                            (np.ma.getmask(ov) is not np.ma.nomask and np.ma.getmask(iv) is not np.ma.nomask and
+                             np.shares_memory(np.ma.getmask(ov), np.ma.getmask(iv))))]
+                        hit += sh or [3000]      # 3000: result changed after a write into the inputs, sharing not located
+                later = sorted(set(later + hit))
+        except Exception:
+            pass
     return dict(desc=desc, aliased=sorted(set(aliased)), mutated=mutated, later=later, raised=raised,
                 outtype=type(res).__name__ if res is not None else None)
 
